@@ -97,7 +97,26 @@ def ev(e, env, enum_prefixes):
         return ev(e.body, env, enum_prefixes) if ev(e.test, env, enum_prefixes) else ev(e.orelse, env, enum_prefixes)
     if isinstance(e, ast.Call) and unparse(e.func) in env.get("__calls__", {}):
         return env["__calls__"][unparse(e.func)](*[ev(a, env, enum_prefixes) for a in e.args])
+    if isinstance(e, ast.Dict) and all(k is not None for k in e.keys):
+        return {_hashable(ev(k, env, enum_prefixes)): ev(v, env, enum_prefixes) for k, v in zip(e.keys, e.values)}
+    if isinstance(e, ast.Subscript) and not isinstance(e.slice, ast.Slice):
+        base, idx = ev(e.value, env, enum_prefixes), ev(e.slice, env, enum_prefixes)
+        try:
+            return base[_hashable(idx) if isinstance(base, dict) else idx]
+        except (KeyError, IndexError, TypeError):
+            raise AnalysisError(f"finite-eval: {unparse(e)[:40]} has no such element for {idx!r}")
+    if isinstance(e, ast.Call) and isinstance(e.func, ast.Attribute) and e.func.attr == "get" and 1 <= len(e.args) <= 2 and not e.keywords:
+        base = ev(e.func.value, env, enum_prefixes)
+        if isinstance(base, dict):
+            k = _hashable(ev(e.args[0], env, enum_prefixes))
+            return base.get(k, ev(e.args[1], env, enum_prefixes) if len(e.args) == 2 else None)
+    if isinstance(e, ast.Call) and unparse(e.func) in ("tuple", "list", "set", "frozenset") and len(e.args) == 1 and not e.keywords:
+        return list(ev(e.args[0], env, enum_prefixes))
     raise AnalysisError(f"finite-eval: unsupported expression {unparse(e)[:60]}")
+
+
+def _hashable(v):
+    return tuple(_hashable(x) for x in v) if isinstance(v, list) else v
 
 
 class _Break(Exception):
